@@ -531,7 +531,7 @@ class Spec:
                 probes["failed-store"] = 1
             res.update({
                 "digest": k.digest(), "signature": k.signature(), "steps": k.step, "switches": k.switches,
-                "preemptions": k.preemptions, "sync_events": k.sync_events, "max_live": k.max_live,
+                "preemptions": k.preemptions, "sync_events": k.sync_events, "max_live": k.max_live, "abstract_states": sorted(k.abstract_states),
                 "probes": probes, "faults": k.faults, "strategy": strategy.name,
                 "nontrivial": k.max_live >= 2 and k.preemptions >= 1,
                 "plan": {**plan_short(plan), "strategy": strategy.describe()}, "streams": choice.streams(),
